@@ -54,7 +54,7 @@ ASSUMPTIONS = [
 EXC_CODE = {"ValueError": 1, "AxisError": 1, "NotImplementedError": 2, "OverflowError": 3}
 
 
-def run_guarded(fn, cases, workers, per_case_timeout, batch=120, deadline=420.0):
+def run_guarded(fn, cases, workers, per_case_timeout, batch=120):
     """vlib.run_impl in batches, each under a deadline: a worker that dies between taking a case and
     announcing it (segfault in a nopython kernel) would otherwise block the pool for ever.  Cases of a
     batch that does not return are reported as {'lost': True}."""
@@ -68,7 +68,7 @@ def run_guarded(fn, cases, workers, per_case_timeout, batch=120, deadline=420.0)
             box["res"] = vlib.run_impl("props.c11", fn, chunk, workers=workers, per_case_timeout=per_case_timeout)
         th = threading.Thread(target=work, daemon=True)
         th.start()
-        th.join(deadline)
+        th.join(900.0 + 3.0 * len(chunk))      # generous: a loaded machine must not look like a lost batch
         out.extend(box.get("res") or [{"lost": True} for _ in chunk])
     return out
 
@@ -451,7 +451,7 @@ HIST_CODES = {
 
 def campaign_hist(build, tier, seed, report, budget):
     rng = random.Random(seed * 7919 + 11)
-    ncases, maxlen = (160, 30) if tier == "quick" else (500, 200)
+    ncases, maxlen = (160, 30) if tier == "quick" else (400, 200)
     ncases *= budget
     cases, aux = [], []
     tags = {}
@@ -462,7 +462,7 @@ def campaign_hist(build, tier, seed, report, budget):
         aux.append((xops, u2x))
         for t, v in tg.items():
             tags[t] = tags.get(t, 0) + v
-    res = run_guarded("impl_hist", cases, 12, 60.0, batch=80)
+    res = run_guarded("impl_hist", cases, 12, 60.0, batch=250)
     lits, idx, viol = [], [], []
     hits = evict = selfret = excs = nested = 0
     for i, (case, (xops, u2x), r) in enumerate(zip(cases, aux, res, strict=True)):
@@ -553,12 +553,37 @@ def _snapshot(o):
     return _digest("meta", meta, [b[1] for b in bufs]), [b[0] for b in bufs]
 
 
-def _rand_dense(rng, shape, fill, density, floaty, nan):
+def _rand_dense(rng, shape, fill, density, floaty, nan, pattern="random", negative=False):
+    """a small dense array with a chosen sparsity pattern (boundary-directed: the patterns are the ones
+    on which kernels take special paths — no stored element, all stored, exactly one stored element per
+    row / per column / per slab, a diagonal, a single element)"""
     import numpy as np
     a = np.full(shape, fill, dtype=np.float64 if floaty else np.int64)
-    mask = rng.random(shape) < density
+    nd = len(shape)
+    if pattern == "empty" or a.size == 0:
+        mask = np.zeros(shape, dtype=bool)
+    elif pattern == "full":
+        mask = np.ones(shape, dtype=bool)
+    elif pattern == "single":
+        mask = np.zeros(shape, dtype=bool)
+        mask.reshape(-1)[rng.integers(0, a.size)] = True
+    elif pattern in ("one-per-row", "one-per-col") and nd >= 1:
+        ax = nd - 1 if pattern == "one-per-row" else 0
+        mask = np.zeros(shape, dtype=bool)
+        for idx in np.ndindex(*[shape[i] for i in range(nd) if i != ax]):
+            full = list(idx)
+            full.insert(ax, int(rng.integers(0, shape[ax])))
+            mask[tuple(full)] = True
+    elif pattern == "diagonal" and nd >= 2:
+        mask = np.zeros(shape, dtype=bool)
+        for i in range(min(shape)):
+            mask[(i,) * nd] = True
+    else:
+        mask = rng.random(shape) < density
     vals = rng.integers(1, 7, size=shape)
-    a[mask] = vals[mask] + (10 if fill else 0)
+    if negative:
+        vals = -vals
+    a[mask] = vals[mask] + ((10 if not negative else -10) if fill else 0)
     if nan and floaty and a.size:
         a[rng.random(shape) < 0.15] = np.nan
     return a
@@ -755,7 +780,8 @@ def impl_snap(case):
     shape = tuple(case["shape"])
     fill = case["fill"]
     floaty = case["floaty"]
-    a = _rand_dense(rng, shape, fill, 0.5, floaty, case["op"].startswith("nan"))
+    a = _rand_dense(rng, shape, fill, 0.5, floaty, case["op"].startswith("nan"), case.get("pattern", "random"),
+                    case.get("negative", False))
     operands = []
     share = case["share"]
     fmt = case["fmt"]
@@ -815,13 +841,14 @@ def snap_cases(tier, seed, budget):
     fmts = ["coo", "gcxs0", "gcxs1", "gcxs2", "dok"]
     shapes = [(3,), (4,), (2, 3), (3, 3), (1, 4), (4, 1), (2, 2, 3), (3, 1, 2), (2, 3, 2, 2), (0, 3), (5,), (2, 0, 2)]
     shares = ["plain", "plain", "T", "view", "cached", "user-arrays", "same"]
-    reps = (2 if tier == "quick" else 8) * budget
+    fills = [0, 0, 0, 3, 1]
+    reps = (2 if tier == "quick" else 6) * budget
     cases = []
     for op in names:
         for fmt in fmts:
             for _ in range(reps):
                 shape = rng.choice(shapes if rng.random() < 0.9 else [()])
-                fill = rng.choice([0, 0, 0, 3])
+                fill = rng.choice(fills)
                 if op in ("tocsr", "tocsc", "to_scipy", "matrix_transpose", "triu", "tril", "mT") and rng.random() < 0.8:
                     shape = rng.choice([(2, 3), (3, 3), (1, 4), (4, 1)])      # mostly admissible operands
                     fill = 0
@@ -831,7 +858,10 @@ def snap_cases(tier, seed, budget):
                 cases.append({"op": op, "fmt": fmt, "shape": list(shape), "fill": fill,
                               "seed": rng.randrange(1 << 30), "share": rng.choice(shares),
                               "floaty": op.startswith("nan") or rng.random() < 0.25,
-                              "fmt2": rng.choice(fmts)})
+                              "fmt2": rng.choice(fmts),
+                              "pattern": rng.choice(["random", "random", "random", "one-per-row", "one-per-col",
+                                                     "diagonal", "full", "empty", "single"]),
+                              "negative": rng.random() < 0.35})
     return cases
 
 
@@ -850,7 +880,7 @@ SNAP_CODES = {1: "an operand's shape / dtype / fill value / array flags changed"
 
 def campaign_snap(build, tier, seed, report, budget):
     cases = snap_cases(tier, seed, budget)
-    res = run_guarded("impl_snap", cases, 14, 60.0, batch=600)
+    res = run_guarded("impl_snap", cases, 14, 60.0, batch=2500)
     lits, idx, viol = [], [], []
     tags = {}
     hangs = 0
@@ -868,6 +898,7 @@ def campaign_snap(build, tier, seed, report, budget):
         lits.append(vpair(vlist(r["before"], sn), vlist(r["after"], sn)))
         idx.append(i)
         key = f"{c['fmt']}/{c['share']}/{'raised' if r['exc'] else 'ok'}"
+        tags["pattern:" + c["pattern"]] = tags.get("pattern:" + c["pattern"], 0) + 1
         tags[key] = tags.get(key, 0) + 1
     bad = build.judge("c11_snap", "From Verif Require Import C11Judge.", "snap_case", "judge_snap", lits, chunk=500)
     for k, code in bad:
